@@ -56,21 +56,28 @@ def gen_case(tape, tier):
     outs = all_outputs(w)
     ops = []
     exited = False
+    spellings = bool(tape.coin(0.25, "spellings"))
     for _ in range(1 + tape.choose(6, "nops")):
         if not exited or tape.coin(0.3, "exit-again"):
             if tape.coin(0.6 if not exited else 1.0, "exit"):
                 ops.append({"op": "exit"})
                 exited = True
+        if spellings and tape.coin(0.4, "chdir"):
+            ops.append({"op": "chdir", "to": tape.pick(["root", "sub1", "sub2"], "chdir-to")})
         kind = tape.pick(["outputs", "outputs", "run_info", "xarray"], "op")
+        via = {"via": tape.pick(["abs", "rel"], "via")} if spellings else {}
         if kind == "outputs":
             names = [tape.pick(outs, "name") for _ in range(1 + tape.choose(3, "nnames"))]
             # mutate: the caller modifies the loaded object in place afterwards; later loads must not see that
-            ops.append({"op": "outputs", "names": names, "mutate": bool(tape.coin(0.3, "mutate-loaded"))})
+            ops.append({"op": "outputs", "names": names, "mutate": bool(tape.coin(0.3, "mutate-loaded")), **via})
         elif kind == "run_info":
-            ops.append({"op": "run_info"})
+            ops.append({"op": "run_info", **via})
         else:
-            ops.append({"op": "xarray", "intermediate": bool(tape.coin(0.5, "intermediate"))})
+            ops.append({"op": "xarray", "intermediate": bool(tape.coin(0.5, "intermediate")), **via})
     cfg = {"storage": storage, "executor": executor, "preempt": tape.pick([0.1, 0.5], "preempt")}
+    if spellings:
+        # the run folder is named by a relative or an absolute path, and the working directory moves between loads
+        cfg["run_via"] = tape.pick(["abs", "rel"], "run-via")
     # what was in the folder before the run whose results are reloaded
     pre = tape.pick(["none", "none", "none", "crashed-other", "complete-other", "partial-same", "crashed-same"], "prehistory")
     if pre == "partial-same":
@@ -228,6 +235,14 @@ def run_real(case):
 
 
 def run_case(case, exec_seed=None, exec_tape=None):
+    cwd = os.getcwd()
+    try:
+        return _run_case(case, exec_seed, exec_tape)
+    finally:
+        os.chdir(cwd)  # cases with path spellings move the working directory around
+
+
+def _run_case(case, exec_seed=None, exec_tape=None):
     C.begin_case()
     if case["config"].get("real_children"):
         return run_real(case)
@@ -248,13 +263,20 @@ def run_case(case, exec_seed=None, exec_tape=None):
         folder = os.path.join(root, "run")
         state = {"sim": None, "fresh": False, "nproc": 0}
         truth = {}
+        if cfg.get("run_via"):
+            os.chdir(root)
+            probes["path_spellings"] = 1
+
+        def F(via):
+            """The run folder as the caller spells it."""
+            return os.path.relpath(folder) if via == "rel" else folder
 
         def do_run():
             p = build_pipeline(w)
             inputs = build_inputs(w)
             sim = state["sim"]
             executor, parallel = C.make_executor(sim, cfg["executor"])
-            res = p.map(inputs, run_folder=folder, parallel=parallel, executor=executor,
+            res = p.map(inputs, run_folder=F(cfg.get("run_via")), parallel=parallel, executor=executor,
                         storage=C.storage_arg(cfg["storage"]), persist_memory=True,
                         cleanup=cfg.get("pre", "none") in ("none", "complete-other"), **map_kwargs(w))
             truth["R"] = {o: canon(res[o].output) for o in all_outputs(w)}
@@ -271,6 +293,15 @@ def run_case(case, exec_seed=None, exec_tape=None):
                     truth["xr"][inter] = ("raised", type(e).__name__)
 
         def do_op(op):
+            if op["op"] == "chdir":
+                d = root if op["to"] == "root" else os.path.join(root, op["to"])
+                os.makedirs(d, exist_ok=True)
+                os.chdir(d)
+                probes["chdir"] = probes.get("chdir", 0) + 1
+                return
+            _do_op(op, F(op.get("via")))
+
+        def _do_op(op, folder):
             where = "fresh" if state["fresh"] else "same"
             probes[f"load:{op['op']}:{where}"] = probes.get(f"load:{op['op']}:{where}", 0) + 1
             if op["op"] == "outputs":
